@@ -57,7 +57,7 @@ def gen_case(rng):
         rows.append({n: (rng.choice(bad) if rng.random() < p_bad else rng.choice(good)) for n in names})
     policy = rng.choice(POLICIES)
     kind = rng.choice(['set_type', 'set_type', 'validate'])
-    transform = rng.random() < 0.2 and kind == 'set_type'
+    transform = rng.choice(['strip0', 'fill-null-good', 'fill-null-bad', 'by-field-name']) if (rng.random() < 0.35 and kind == 'set_type') else None
     return {'type': typ, 'names': names, 'pattern': pattern, 'rows': rows, 'policy': policy, 'kind': kind,
             'transform': transform, 'extra': rng.random() < 0.3}
 
@@ -80,8 +80,23 @@ def run_case(ctx, c, rng):
     handler = make_handler(c['policy'], keep_table, log)
     checked = [n for n in names if re.fullmatch(c['pattern'], n)] if c['kind'] == 'set_type' else list(names)
 
-    def tr(v):
-        return v.strip('0') or '0' if isinstance(v, str) and v.isdigit() else v
+    good_v, bad_v = LEX[c['type']]
+
+    def tr_spec(v, k):
+        if c['transform'] == 'strip0':
+            return v.strip('0') or '0' if isinstance(v, str) and v.isdigit() else v
+        if c['transform'] == 'fill-null-good':
+            return good_v[0] if v is None else v
+        if c['transform'] == 'fill-null-bad':
+            return bad_v[0] if v is None else v
+        return (good_v[0] if k.endswith('1') else bad_v[0]) if v is None else v
+
+    if c['transform'] == 'by-field-name':
+        def tr(v, field_name):
+            return tr_spec(v, field_name)
+    else:
+        def tr(v):
+            return tr_spec(v, None)
 
     if c['kind'] == 'set_type':
         kw = dict(type=c['type'], on_error=handler, resources='data')
@@ -98,7 +113,7 @@ def run_case(ctx, c, rng):
             f['type'] = c['type']
         target_desc = copy.deepcopy(desc['resources'][0])
         steps = [DF.validate(on_error=handler, resources='data')]
-    incoming = [dict((k, (tr(v) if (c['transform'] and k in checked) else v)) for k, v in r.items()) for r in c['rows']]
+    incoming = [dict((k, (tr_spec(v, k) if (c['transform'] and k in checked) else v)) for k, v in r.items()) for r in c['rows']]
     # third-party outcomes: Field.cast_value for every (checked field, incoming value)
     res_obj = Resource(target_desc)
     fobj = {f.name: f for f in res_obj.schema.fields}
